@@ -1109,13 +1109,16 @@ impl QueryRouter {
                 }
 
                 Expr::Value(Value::Placeholder(placeholder)) => {
-                    match placeholder.replace('$', "").parse::<i16>() {
-                        Ok(placeholder) => result.push(ShardingKey::Placeholder(placeholder)),
-                        Err(_) => {
-                            debug!(
-                                "Prepared statement didn't have integer placeholders: {}",
-                                placeholder
-                            );
+                    // Only the placeholder compared with the sharding key column carries the key.
+                    if found {
+                        match placeholder.replace('$', "").parse::<i16>() {
+                            Ok(placeholder) => result.push(ShardingKey::Placeholder(placeholder)),
+                            Err(_) => {
+                                debug!(
+                                    "Prepared statement didn't have integer placeholders: {}",
+                                    placeholder
+                                );
+                            }
                         }
                     }
                 }
